@@ -441,8 +441,11 @@ theorem execS_callStmt {G : GCtx} (ok : G.OK) (fuel : Nat) (hcs : ∀ k, k < fue
     ExecS (KOf G pi sp dep hi) (G.iEpi pi) (optStmt (annotS G.rho (.call g args))) σ
       (X.exec fuel G.xc (.call g args) σ) := by
   intro gs code gs' i a b mem hgen hat hr hsz hnl hci
+  have hrg : G.rho g = none := by
+    obtain ⟨p, hp⟩ := ok.pnames_mem g hg
+    exact ok.rho_none g (fun w => by rw [hp]; simp)
   have hopt : optStmt (annotS G.rho (.call g args)) = .call (-1) g (optArgsOf G.rho args) := by
-    simp only [annotS, optStmt, optArgs_map]
+    simp only [annotS, optStmt, optArgs_map, sysOf, hrg]
   rw [hopt, genStmt_call_eq] at hgen
   rw [if_neg (by decide)] at hgen
   cases fuel with
@@ -496,7 +499,7 @@ theorem execS_callStmt {G : GCtx} (ok : G.OK) (fuel : Nat) (hcs : ∀ k, k < fue
 
 def StmtLSpec (G : GCtx) (fuel : Nat) : Prop :=
   ∀ pi ∈ G.procs, ∀ sp dep hi, G.lo ≤ sp → sp + G.S pi + pi.po + pi.p.formals.length ≤ G.spv + 1 → G.spv ≤ sp + dep * G.smax →
-    ∀ ss σ, okS5L G.pk G.pnames G.xc.impure ss = true →
+    ∀ ss σ, okS5L G.pk G.pnames G.xc.impure G.rho ss = true →
       ExecSL (KOf G pi sp dep hi) (G.iEpi pi) (optStmts (annotSL G.rho ss)) σ (X.execSeq fuel G.xc ss σ)
 
 theorem callE_inv (ps : List String) (e : X.Expr) (h : callE ps e = true) :
@@ -595,8 +598,16 @@ theorem all_correct {G : GCtx} (ok : G.OK) : ∀ fuel, StmtSpec G fuel ∧ StmtL
           rw [this]
           exact execS_assignSub (KOf G pi sp dep hi) _ wf _ n i e σ hok.1 hok.2
         | call g args =>
-          simp only [okS5, Bool.and_eq_true, List.all_eq_true, List.contains_iff_mem] at hok
-          exact execS_callStmt ok (F + 1) hcsF1 hpi sp dep hi hlo hspv hstack g args hok.1 hok.2 σ
+          simp only [okS5, Bool.and_eq_true, List.all_eq_true, Bool.or_eq_true, List.contains_iff_mem] at hok
+          rcases hok.1 with hps | hvs
+          · exact execS_callStmt ok (F + 1) hcsF1 hpi sp dep hi hlo hspv hstack g args hps hok.2 σ
+          · unfold valSys at hvs
+            cases hr : G.rho g with
+            | none => rw [hr] at hvs; simp at hvs
+            | some w =>
+              rw [hr] at hvs
+              simp only [decide_eq_true_eq] at hvs
+              exact execS_valcall (KOf G pi sp dep hi) _ wf _ g args σ w hr hvs hok.2
       · intro pi hpi sp dep hi hlo hspv hstack ss σ hok
         have ihS' := ihS pi hpi sp dep hi hlo hspv hstack
         have ihL' := ihL pi hpi sp dep hi hlo hspv hstack
